@@ -109,4 +109,36 @@ theorem split_join_aux (args : List Str) (h : ∀ a ∈ args, a ≠ [] ∧ a.all
       rw [ih (fun x hx => h x (List.mem_cons_of_mem _ hx))]
       simp
 
+theorem pickQuote_spec (a : Str) (h : ¬ ((34 : UInt8) ∈ a ∧ (39 : UInt8) ∈ a)) :
+    pickQuote a ∉ a ∧ isQuote (pickQuote a) = true ∧ isBlank (pickQuote a) = false := by
+  unfold pickQuote
+  by_cases h34 : (34 : UInt8) ∈ a
+  · rw [if_pos h34]
+    exact ⟨fun h39 => h ⟨h34, h39⟩, by decide, by decide⟩
+  · rw [if_neg h34]
+    exact ⟨h34, by decide, by decide⟩
+
+theorem split_joinQuoted_aux (args : List Str) (h : ∀ a ∈ args, ¬ ((34 : UInt8) ∈ a ∧ (39 : UInt8) ∈ a)) : ∀ (done : List Str),
+    splitGo .blank (joinQuoted args) done = some (done.reverse ++ args) := by
+  induction args with
+  | nil => intro done; simp [joinQuoted, splitGo]
+  | cons a rest ih =>
+    intro done
+    obtain ⟨hq, hisq, hnb⟩ := pickQuote_spec a (h a List.mem_cons_self)
+    cases rest with
+    | nil =>
+      simp only [joinQuoted, quoteArg, List.cons_append, splitGo, hnb, hisq, if_true]
+      have := quoted_run (pickQuote a) a hq [] [] done
+      rw [this]; simp [splitGo]
+    | cons b r =>
+      simp only [joinQuoted, quoteArg, List.cons_append, splitGo, hnb, hisq, if_true]
+      have := quoted_run (pickQuote a) a hq [] (32 :: joinQuoted (b :: r)) done
+      rw [List.append_assoc]
+      simp only [List.cons_append, List.nil_append]
+      rw [this]
+      have hb32 : isBlank 32 = true := by decide
+      simp only [splitGo, hb32, if_true]
+      rw [ih (fun x hx => h x (List.mem_cons_of_mem _ hx))]
+      simp
+
 end Tbox.C13
